@@ -42,6 +42,8 @@ func sinkEnum(e *env) error {
 	inputs := []struct{ name, book, log string }{
 		{"small", fixedBook, fixedLog},
 		{"large", fixedBook, longLog(e.argInt("days", 120))},
+		// a food name of 5000 bytes: the first write of several reports is larger than bufio's buffer and goes straight to the sink
+		{"longname", fixedBook, "2021/01/01:\n  " + strings.Repeat("A", 5000) + "/x: 1\n  b: 2\n"},
 	}
 	offsets := 0
 	for _, in := range inputs {
